@@ -24,7 +24,8 @@ E = 10
 BOTH = {PM: 'pool-manager', FM: 'farm-manager'}
 HINT = {'x1': 10 ** 12, 'y1': 10 ** 12, 'S1': 10 ** 12, 'amount': 10 ** 6, 'amount_b': 10 ** 6, 'pm_amt': 10 ** 6, 'pv_amt': 2 * 10 ** 6,
         'w_trader': 1174000, 'w_victim': 2348000, 'T': 10 ** 7}
-TARGETS = ['new_auto', 'new_explicit', 'own', 'foreign']
+TARGETS = ['new_auto', 'new_explicit', 'own', 'foreign', 'own_closed', 'own_other_lp']
+LP2 = 'factory/pool_manager/p2.LP'
 DUR = 30 * DAY
 
 
@@ -50,8 +51,8 @@ def _ob(kind, switches=False):
             target, to_victim = TARGETS[I.choose(3, 'target')], False
         else:
             sw = dep = wd = True
-            target = TARGETS[I.choose(4, 'target')]
-            to_victim = I.choose(2, 'receiver_is_victim') == 1
+            target = TARGETS[I.choose(6, 'target')]
+            to_victim = I.choose(2, 'receiver_is_victim') == 1 if target in TARGETS[:4] else False
         # ---- pool manager: one funded constant-product pool
         pm_config(I)
         set_ownership(I, PM, 'creator')
@@ -76,10 +77,14 @@ def _ob(kind, switches=False):
         I.world.store(FM)['position_id_counter'] = 7
         pm_amt = I.sym('pm_amt', lo=1, hi=U128 // 64)
         pv_amt = I.sym('pv_amt', lo=1, hi=U128 // 64)
-        I.assume(MINLIQ + pm_amt + pv_amt <= S)
+        I.assume(MINLIQ + pm_amt + pv_amt + 5 <= S)
         put_position(I, position('u-m', LP1, pm_amt, DUR, 'trader', None))
         put_position(I, position('u-v', LP1, pv_amt, DUR, 'victim', None))
-        b.set(FM, LP1, simp(pm_amt + pv_amt))
+        # two more positions of the sender that the farm manager will refuse to top up: one already closed, one holding another pool's LP token
+        put_position(I, position('u-x', LP1, 5, DUR, 'trader', 40 * DAY))
+        put_position(I, position('u-y', LP2, 5, DUR, 'trader', None))
+        b.set(FM, LP2, 5)
+        b.set(FM, LP1, simp(pm_amt + pv_amt + 5))
         wt = I.sym('w_trader', lo=1, hi=U128 // 4)
         wv = I.sym('w_victim', lo=1, hi=U128 // 4)
         T = I.sym('T', lo=1, hi=U128 // 2)
@@ -89,7 +94,8 @@ def _ob(kind, switches=False):
         put_weight(I, FM, LP1, 3, T)
         for a in ('trader', 'victim'):
             I.assume(I.addr_valid(a))
-        lock_id = {'new_auto': None, 'new_explicit': Some('fresh'), 'own': Some('u-m'), 'foreign': Some('u-v')}[target]
+        lock_id = {'new_auto': None, 'new_explicit': Some('fresh'), 'own': Some('u-m'), 'foreign': Some('u-v'), 'own_closed': Some('u-x'),
+                   'own_other_lp': Some('u-y')}[target]
         msg = provide_msg('p1', swap_slip=Some(5 * 10 ** 17), receiver=Some('victim') if to_victim else None, unlocking=Some(DUR), lock_id=lock_id)
         funds = [coin_v('uA', amt), coin_v('uB', amt_b)] if kind == 'both' else [coin_v('uA', amt)]
         pre = b.snapshot()
@@ -97,7 +103,7 @@ def _ob(kind, switches=False):
         ch = Chain(I, BOTH)
         st, _ = ch.execute('trader', PM, msg, funds)
         I.observe('status', 'ok' if st == 'ok' else 'err')
-        for pid in ('u-m', 'u-v', 'u-fresh', 'p-8'):
+        for pid in ('u-m', 'u-v', 'u-x', 'u-y', 'u-fresh', 'p-8'):
             p = get_position(I, pid)
             I.observe('pos:%s:amount' % pid, None if p is None else p.get('lp_asset').get('amount'))
             if p is not None:
@@ -107,7 +113,11 @@ def _ob(kind, switches=False):
         for k in ((FM, LP1), ('trader', LP1), ('victim', LP1), (PM, LP1)):
             I.observe('bal:%s:%s' % k, b.get(*k))
         I.observe('supply:' + LP1, b.supply[LP1])
-        allowed = (not to_victim) and target != 'foreign'
+        allowed = (not to_victim) and target in ('new_auto', 'new_explicit', 'own')
+        if st == 'ok' and target in ('own_closed', 'own_other_lp'):
+            # the farm manager refuses the top-up (closed position / other LP token): the whole deposit must fail -- no tolerated internal failure here
+            I.check('lock_refused_by_the_farm_manager_fails_the_whole_deposit', False)
+            return
         if st != 'ok':
             I.outcome('rejected')
             return
@@ -135,7 +145,7 @@ def _ob(kind, switches=False):
             gained = simp(gained + delta)
         I.check('positions_grow_by_exactly_the_minted_shares', smt.Eq(gained, shares))
         I.check('no_position_disappears', all(get_position(I, k) is not None for k in before_pos))
-        exp_id = {'new_auto': 'p-8', 'new_explicit': 'u-fresh', 'own': 'u-m', 'foreign': 'u-v'}[target]
+        exp_id = {'new_auto': 'p-8', 'new_explicit': 'u-fresh', 'own': 'u-m', 'foreign': 'u-v'}.get(target, 'u-m')
         tp = get_position(I, exp_id)
         I.check('the_named_target_received_the_shares', tp is not None and smt.Eq(
             tp.get('lp_asset').get('amount'), shares + (before_pos[exp_id].get('lp_asset').get('amount') if exp_id in before_pos else 0)))
@@ -170,14 +180,15 @@ def _replay(kind):
         status = (m.get('swaps_enabled', True), m.get('deposits_enabled', True), m.get('withdrawals_enabled', True))
         steps = [{'op': 'set_pool', 'pool': pool_json('p1', ['uA', 'uB'], [6, 6], [m['x1'], m['y1']], 'constant_product', fees, status=status)}]
         steps += _mints([('pool_manager', [('uA', m['x1']), ('uB', m['y1']), (LP1, MINLIQ)]),
-                         ('farm_manager', [(LP1, m['pm_amt'] + m['pv_amt'])]),
-                         ('sink', [(LP1, m['S1'] - MINLIQ - m['pm_amt'] - m['pv_amt'])]),
+                         ('farm_manager', [(LP1, m['pm_amt'] + m['pv_amt'] + 5), (LP2, 5)]),
+                         ('sink', [(LP1, m['S1'] - MINLIQ - m['pm_amt'] - m['pv_amt'] - 5)]),
                          ('trader', [('uA', m['amount']), ('uB', m['amount_b'])])])
-        steps += fm_state_steps(None, positions=[('u-m', LP1, m['pm_amt'], DUR, 'trader', None), ('u-v', LP1, m['pv_amt'], DUR, 'victim', None)],
+        steps += fm_state_steps(None, positions=[('u-m', LP1, m['pm_amt'], DUR, 'trader', None), ('u-v', LP1, m['pv_amt'], DUR, 'victim', None),
+                                           ('u-x', LP1, 5, DUR, 'trader', 40 * DAY), ('u-y', LP2, 5, DUR, 'trader', None)],
                                 weights=[('trader', LP1, 3, m['w_trader']), ('victim', LP1, 3, m['w_victim']), ('farm_manager', LP1, 3, m['T'])],
                                 now_s=E * DAY + 5)
         steps.append({'op': 'set_counter', 'which': 'position', 'value': '7'})
-        lock_id = {'new_auto': None, 'new_explicit': 'fresh', 'own': 'u-m', 'foreign': 'u-v'}[target]
+        lock_id = {'new_auto': None, 'new_explicit': 'fresh', 'own': 'u-m', 'foreign': 'u-v', 'own_closed': 'u-x', 'own_other_lp': 'u-y'}[target]
         msg = {'provide_liquidity': {'pool_identifier': 'p1', 'swap_max_slippage': '0.5', 'receiver': '@victim' if to_victim else None,
                                      'unlocking_duration': DUR, 'lock_position_identifier': lock_id}}
         funds = [coin_j('uA', m['amount'])] + ([coin_j('uB', m['amount_b'])] if kind == 'both' else [])
@@ -188,20 +199,20 @@ def _replay(kind):
 
 
 _STATEMENT = ('ProvideLiquidity (%s) with an unlocking duration, for every lock target (new generated id / new explicit id / own position / another '
-              'user position) and receiver (none / another user): accepted only for the sender and never into a foreign position; the minted shares are '
+              'user position / own closed position / own position in another LP token) and receiver (none / another user): accepted only for the sender and never into a foreign position; a top-up the farm manager refuses fails the whole deposit; the minted shares are '
               'held by the farm manager and added to exactly the named position of the sender (created open with the requested duration when new); no other '
               'position changes, appears or disappears; nobody receives liquid LP; the owner weight and the total weight for the next epoch grow by '
               'weight(shares), other users and the pool manager gain none; no temporary buffer is left')
 _COVERS = ['ok:new_auto', 'ok:new_explicit', 'ok:own']
 
-for _pid, _prefix in (('C14', 'L1'), ('C08', 'S5'), ('C10', 'S3'), ('C01', 'S2')):
+for _pid, _prefix in (('C14', 'L1'), ('C08', 'S5'), ('C10', 'S3'), ('C01', 'S2'), ('C20', 'F4')):
     for _kind in ('both', 'single'):
         obligation(_pid, '%s.locked_deposit_%s_assets' % (_prefix, _kind),
                    entries=['pool-manager::execute', 'provide_liquidity', 'pool-manager::reply', 'farm-manager::execute', 'create_position', 'expand_position',
                             'update_weights', 'farm-manager::query', 'query_positions'],
                    kind='S', statement=_STATEMENT % ('two assets' if _kind == 'both' else 'one asset: swap half, reply, self-call'),
                    bounds='one funded constant-product pool, two open positions (sender, other user) with symbolic amounts and weights, symbolic deposit; '
-                          'unlocking duration 30 days; 4 lock targets x 2 receivers', covers=_COVERS, replay=_replay(_kind))(_ob(_kind))
+                          'unlocking duration 30 days; 6 lock targets x 2 receivers', covers=_COVERS, replay=_replay(_kind))(_ob(_kind))
 
 
 for _kind in ('both', 'single'):
